@@ -548,6 +548,11 @@ def intrinsic (d : Dialect) (name : String) (args : List Val) : CM Val := do
       | .i32 a, .i32 b => pure (.i32 (insertField a b o' c'))
       | .u32 a, .u32 b => pure (.u32 (insertField a b o' c'))
       | _, _ => throw (.stuck (name ++ " operands"))) x n
+  -- fmod: the remainder with the sign of the dividend (C `fmodf`; exact — equal to x - y * trunc(x / y) whenever that is exact)
+  | .msl, "fmod", [x, y] | .hlsl, "fmod", [x, y] =>
+    vzip (fun a b => match a, b with
+      | .f32 a, .f32 b => pure (.f32 (fbin fremF a b))
+      | _, _ => throw (.stuck "fmod operands")) x y
   | .msl, "popcount", [x] => bitFn popc none x
   | .msl, "reverse_bits", [x] => bitFn reverseBitsW none x
   | .msl, "clz", [x] => bitFn (fun w => BitVec.ofNat 32 (clzW w)) none x
